@@ -203,6 +203,29 @@ def run_c19_dynamic(tier, seed):
     return outs["component"][0], outs["component"][1], viol, cov
 
 
+def index_families(cdir):
+    """Reach measure for the dimension along which seeded changes were missed: which column orders
+    and diagonal patterns index selection picked for the programs of this corpus (read off the
+    field names of the emitted model structs)."""
+    orders, diagonals, own_all = {}, set(), 0
+    gdir = os.path.join(cdir, "gen")
+    if not os.path.isdir(gdir):
+        return {}
+    for f in sorted(os.listdir(gdir)):
+        if not f.endswith(".eql.rs"):
+            continue
+        text = open(os.path.join(gdir, f), errors="replace").read()
+        for m in re.finditer(r"\b([a-z_]+?)_new_(eqs_([0-9_]+?)_)?order_([0-9]+(?:_[0-9]+)*)(_own|_all)?:", text):
+            o = m.group(4)
+            orders.setdefault(str(o.count("_") + 1), set()).add(o)
+            if m.group(3):
+                diagonals.add(m.group(3))
+            if m.group(5) == "_all":
+                own_all += 1
+    return {"column_orders_by_width": {k: sorted(v) for k, v in sorted(orders.items())},
+            "diagonal_patterns": sorted(diagonals), "member_relation_index_copies": own_all}
+
+
 def limit_memory():
     """Address-space limit for a worker: a run-away close (possible on a changed tree: the budgets
     are only consulted when close_until polls) ends as an allocation failure, not as a machine-wide
@@ -300,6 +323,7 @@ def run_shards(prop, tier, seed, suffix="", nshards=None, extra_args=(), batch=0
     if os.path.exists(diag):
         rejected = [l.strip() for l in open(diag) if l.startswith("rejected")]
     extra_cov = {"corpus": {"generator_seed": GEN_SEED, "programs": results[0].get("counters", {}).get("programs") if results else None,
+                            "index_families": index_families(corpus_dir(tier, batch)),
                             "dropped_uncompilable": excluded,
                             "generated_programs_rejected_by_the_compiler": len(rejected),
                             "of_which_tempting_surjectivity_violations": len([r for r in rejected if "does not appear earlier" in r])}}
